@@ -410,6 +410,21 @@ class IterQueryInstancesReturn:
         yield from self.instances
 
 
+def _is_element_node(node, name):
+    """
+    Return whether a child node of the tuple tree of an IMETHODRESPONSE or
+    METHODRESPONSE element represents the child element with that name.
+
+    The child elements ERROR, IRETURNVALUE and RETURNVALUE are represented as
+    tuples (name, attrs, children) where attrs is a dictionary. The PARAMVALUE
+    child elements are represented as tuples (name, paramtype, value) where
+    name is the value of their NAME attribute. That value is chosen by the
+    server and may be equal to an element name, so the name alone does not
+    tell the two apart.
+    """
+    return node[0] == name and isinstance(node[1], dict)
+
+
 class WBEMConnection:  # pylint: disable=too-many-instance-attributes
     """
     A client's connection to a WBEM server or WBEM listener. This is the main
@@ -2011,7 +2026,7 @@ class WBEMConnection:  # pylint: disable=too-many-instance-attributes
         # with output parameters.
 
         # Check for failed operation
-        if tup_tree and tup_tree[0][0] == 'ERROR':
+        if tup_tree and _is_element_node(tup_tree[0], 'ERROR'):
             # The operation failed
             err = tup_tree[0]
             try:
@@ -2035,7 +2050,7 @@ class WBEMConnection:  # pylint: disable=too-many-instance-attributes
         return_value = False
         out_param_names = []
         for child_node in tup_tree:
-            if child_node[0] == 'IRETURNVALUE':
+            if _is_element_node(child_node, 'IRETURNVALUE'):
                 return_value = True
             else:
                 # The PARAMVALUE nodes are already unpacked
@@ -2291,7 +2306,7 @@ class WBEMConnection:  # pylint: disable=too-many-instance-attributes
         # At this point we have an optional RETURNVALUE and zero or
         # more PARAMVALUE elements representing output parameters.
 
-        if tup_tree and tup_tree[0][0] == 'ERROR':
+        if tup_tree and _is_element_node(tup_tree[0], 'ERROR'):
             # Operation failed
             err = tup_tree[0]
             try:
@@ -2331,7 +2346,7 @@ class WBEMConnection:  # pylint: disable=too-many-instance-attributes
         # Convert optional RETURNVALUE into a Python object
         returnvalue = None
 
-        if tup_tree and tup_tree[0][0] == 'RETURNVALUE':
+        if tup_tree and _is_element_node(tup_tree[0], 'RETURNVALUE'):
 
             returnvalue = rsp_cimvalue(
                 'RETURNVALUE', tup_tree[0][2],
@@ -2842,7 +2857,7 @@ class WBEMConnection:  # pylint: disable=too-many-instance-attributes
                 if isinstance(p[2], str):
                     enumeration_context = p[2]
 
-            elif p[0] == "IRETURNVALUE":
+            elif _is_element_node(p, "IRETURNVALUE"):
                 rtn_objects = p[2]
         if exp_type is not None:
             for obj in rtn_objects:
